@@ -99,5 +99,18 @@ def run(rep, tier, seed):
 
 
 def replay(obj):
-    print(obj["detail"])
-    return 0
+    """re-run the program under the two hash seeds that disagreed"""
+    r = obj["replay"]
+    prog = r["program"]
+    tmp = tempfile.mkdtemp(prefix="lnnverif_c10_")
+    try:
+        inp = os.path.join(tmp, "in.json")
+        json.dump([prog], open(inp, "w"))
+        outs = [run_seed((hs, k, inp, os.path.join(tmp, f"o{k}.json"))) for k, hs in enumerate(r["hash_seeds"])]
+    finally:
+        import shutil
+        shutil.rmtree(tmp, ignore_errors=True)
+    canon = [[o for l, o in zip(x["results"][0]["lines"], x["results"][0]["impl"]) if not l.startswith(("fact ", "fnode", "reset"))] for x in outs]
+    bad = canon[0] != canon[1]
+    print("REPRODUCED" if bad else "not reproduced")
+    return 1 if bad else 0
